@@ -71,6 +71,10 @@ CHECKS = {
    technique='bounded exhaustive deviation enumeration on the real reader: 14 valid base files x {text, reference-codec binary} with 0/1/(thorough) 2 deviations of every numeric token, line, binary field, record and record length; every truncation point; suffix-header lattice; long lines; crossed with declared sizes {0, smaller, equal, larger} and 6 handlers (incl. SOLHandler_Easy via NLSolver::ReadSolution); one forked ASan+UBSan child per batch with per-input attribution; delivery-protocol monitor',
    text='Each enumerated file/size/handler combination (173K quick, 1.45M thorough) is read by the real mp::ReadSOLFile; termination, absence of sanitizer reports, documented result code with message, no escaping exception, offered counts <= declared sizes, delivered suffix consistent with the header stated in the file, and "incomplete vector => not OK" are checked on every one.',
    note='Not all byte strings: <=2 structured deviations of 14 shapes plus the stated lattices; binary base files come from our own codec; a table shorter than stated is accepted; bad_alloc above 256 MB counts as resource refusal; uninitialised reads are not observed (no MSan).'),
+ 'C13': dict(level='exploration', engine='plapprox', ref='3/C13',
+   technique='bounded exhaustive enumeration of mp::PLApproximate<Con> inputs on the real code: 17 constraint types (30 function instances over bases {0.5,2,e,10} and exponents {-2,-1,-0.5,0.5,1.5,2,3,4}) x all ordered pairs, tiny and point intervals over a 10- (quick) / 14-value (thorough) endpoint alphabet x ubErr 1e-1..1e-4 (thorough ..1e-6) x integer/continuous argument, one forked ASan/UBSan child per case with a CPU-time horizon, judged by an independent long-double reference',
+   text='Every case of the stated finite input space (15,600 quick / 42,840 thorough) is executed on the real approximator. Each delivered PL function is checked for finite, strictly increasing breakpoints that start and end at the reported domain, and for |f-pl| <= ubErr*max(1,|f|) on every segment at the endpoints, a 140-point grid refined towards both ends, bisected stationary points of the absolute and relative error on each monotone piece of f\', and the pre-images of +-1. Periodic approximations are checked as the converter uses them; integer arguments at the integers, with exactness when one breakpoint per integer is used; non-termination is detected by a CPU horizon.',
+   note='Point-wise sampling: the error between samples is not bounded analytically (the measured maximum can only under-estimate). Glibc long-double libm is trusted. The space is an alphabet of intervals/tolerances, not all reals. Exponent 0 (never passed by the converter) is probed, not judged. The 1e-4 minimum breakpoint spacing findings are listed in known-findings.jsonl.'),
 }
 NOT_YET = {}
 def main():
@@ -99,7 +103,18 @@ def main():
                   'enable': 'harnesses are compiled by lib/vbuild.py directly from /repo sources with -DMP_VERIF; the CMake build never defines it',
                   'baseline_off_cmd': 'python3 tools/baseline.py',
                   'source_commits': [], 'add_only': True},
-        'engines': [],
+        'engines': [
+            {'name': 'flat', 'path': 'checks/flat/flatsrv.cc + lib/flatlib.py flatcheck.py flatgen.py nlmodel.py delivered.py + ref/rec_api.h ref/aux_search.h',
+             'serves_properties': ['C01', 'C04', 'C06', 'C07'],
+             'kind_free_text': 'in-process server around the real NL reader + ProblemFlattener + MIPFlatConverter with a recording ModelAPI; bounded exhaustive model/configuration/history enumeration driven from Python'},
+            {'name': 'vdriver', 'path': 'checks/vdriver/vdriver.cc + lib/vdriverlib.py',
+             'serves_properties': ['C09', 'C10', 'C12', 'C19', 'C20'],
+             'kind_free_text': 'complete AMPL driver on the real RunBackendApp path with a scripted solver; one process per explored case'},
+            {'name': 'sigstep', 'path': 'checks/C15', 'serves_properties': ['C15'],
+             'kind_free_text': 'ptrace-controlled signal scheduler: stateless exploration of signal delivery instants at instruction granularity'},
+            {'name': 'explorer', 'path': 'engine/explore.h', 'serves_properties': ['C02', 'C03', 'C05', 'C08', 'C11', 'C14', 'C16', 'C17', 'C18', 'C13'],
+             'kind_free_text': 'stateless DFS over choice sequences with deviation bounding (vx::Explorer) and sharded JSON-lines reporting, inside per-property C++ harnesses built from the tree with sanitizers'},
+        ],
         'checks': checks,
         'not_applicable': na,
         'notes': 'All checks are bounded exhaustive explorations of the real code compiled from /repo\'s working tree (see DESIGN.md). known-findings.jsonl lists recorded genuine defects and fixed: entries.',
